@@ -155,6 +155,7 @@ package ledger
 //@   requires h.store != nil
 //@   requires (property == "address" || property == "account") && operator != "$in" ==> is(value, string)
 //@   requires (property == "first_usage" || property == "insertion_date" || property == "updated_at") ==> ordOps(operator)
+//@   requires (property == "first_usage" || property == "insertion_date" || property == "updated_at") && is(value, string) ==> parsesTime(value.(string))
 //@   requires keyOf(property) == "balance" ==> numMapOps(operator)
 //@   requires keyOf(property) == "metadata" ==> strMapOps(operator)
 //@   modifies qWhere, qWhereCount, qOrderExpr
@@ -168,6 +169,7 @@ package ledger
 //@   requires property == "id" ==> ordOps(operator)
 //@   requires property == "reference" ==> strOps(operator)
 //@   requires (property == "timestamp" || property == "inserted_at" || property == "updated_at" || property == "reverted_at") ==> ordOps(operator)
+//@   requires (property == "timestamp" || property == "inserted_at" || property == "updated_at" || property == "reverted_at") && is(value, string) ==> parsesTime(value.(string))
 //@   note the requires are what queries.TypeBoolean / TypeString.ValidateValue establish for these properties (entity schema TransactionSchema); the walk of the filter tree that connects them (go-libs query.Builder) is not under contract
 
 
@@ -176,17 +178,20 @@ package ledger
 //@ func (h logsResourceHandler) ResolveFilter(q common.ResourceQuery[any], operator string, property string, value any) (s string, args []any, err error)
 //@   property C38
 //@   requires property == "date" ==> ordOps(operator)
+//@   requires (property == "date") && is(value, string) ==> parsesTime(value.(string))
 //@   requires property == "id" ==> ordOps(operator)
 //@   requires property == "type" ==> strOps(operator)
 
 //@ func (h schemasResourceHandler) ResolveFilter(q common.ResourceQuery[any], operator string, property string, value any) (s string, args []any, err error)
 //@   property C38
 //@   requires property == "created_at" ==> ordOps(operator)
+//@   requires (property == "created_at") && is(value, string) ==> parsesTime(value.(string))
 //@   requires property == "version" ==> strOps(operator)
 
 //@ func (h volumesResourceHandler) ResolveFilter(q common.ResourceQuery[ledger.GetVolumesOptions], operator string, property string, value any) (s string, args []any, err error)
 //@   property C38
 //@   requires (property == "address" || property == "account") && operator != "$in" ==> is(value, string)
 //@   requires property == "first_usage" ==> ordOps(operator)
+//@   requires (property == "first_usage") && is(value, string) ==> parsesTime(value.(string))
 //@   requires keyOf(property) == "balance" ==> numMapOps(operator)
 //@   requires keyOf(property) == "metadata" ==> strMapOps(operator)
